@@ -70,6 +70,7 @@ def rec_to_decl(smt):
 
 REGISTRY = {}
 ORDER = []
+INSTANCE_GENERATORS = []   # functions (hyps, goal) -> extra ground hypotheses (trait instances on occurring applications)
 AXIOMATIZED = {}      # function name -> (application term -> list of definitional axioms), instantiated per occurrence
 
 
@@ -132,6 +133,14 @@ def build_query(hyps, goal, extra_decls=(), get_values=None, logic='ALL', opaque
             for n in REGISTRY:
                 if n in txt:
                     names.add(n)
+    for gen in INSTANCE_GENERATORS:
+        more = gen(hyps, goal)
+        if more:
+            hyps = list(hyps) + more
+            for h in more:
+                h.free_vars(fv)
+                h.apps(apps)
+            names = {a for a in apps if isinstance(a, str)} | names
     # definitional axioms of array-valued helper functions (shift, awrite, ...), instantiated for the applications that occur
     extra_hyps = []
     used = [n for n in AXIOMATIZED if n in names]
